@@ -15,7 +15,7 @@ func init() {
 			for i := 0; i < tierN(tier, 400, 5000); i++ {
 				pkg := r.Pick2("flate", "flate", "flate", "gzip", "zlib")
 				s1, _, _ := genContainerStream(r, pkg, "quick")
-				hist := r.Pick2("none", "partial", "partial1", "complete", "error", "truncated")
+				hist := r.Pick2("none", "partial", "partial1", "complete", "error", "truncated", "hdrcut")
 				c := Case{Prop: "C13", Pkg: pkg, Stream: s1, Kind: hist, Reads: readPattern(r), K: 1 + r.Intn(70000)}
 				switch {
 				case pkg == "flate" && r.Intn(2) == 0:
@@ -65,7 +65,7 @@ func init() {
 							kk = len(s)
 						}
 					}
-					cs = append(cs, Case{Prop: "C15", Pkg: pkg, Stream: s, K: kk, EOFWith: r.Bool(), Kind: r.Pick2("A", "B"), Reads: readPattern(r), Chunks: chunkPattern(r), Ctor: r.Pick2("new", "reset"), Note: how, Src: r.Pick2("plain", "bufio:4096", "bufio:100")})
+					cs = append(cs, Case{Prop: "C15", Pkg: pkg, Stream: s, K: kk, EOFWith: r.Bool(), Kind: r.Pick2("A", "B", "W"), Reads: readPattern(r), Chunks: chunkPattern(r), Ctor: r.Pick2("new", "reset"), Note: how, Src: r.Pick2("plain", "bufio:4096", "bufio:100")})
 				}
 			}
 			return cs
@@ -174,6 +174,11 @@ func checkC13(c *Case, st *Stats) *Violation {
 		}
 	case "truncated":
 		s1 = s1[:len(s1)*2/3]
+	case "hdrcut": // cut inside the first block header (after the container header)
+		skip := map[string]int{"flate": 0, "gzip": 10, "zlib": 2}[c.Pkg]
+		if len(s1) > skip+3 {
+			s1 = s1[:skip+1+c.K%min(16, len(s1)-skip-1)]
+		}
 	}
 	// reused reader
 	var reused io.Reader
@@ -188,7 +193,10 @@ func checkC13(c *Case, st *Stats) *Violation {
 			}
 		}
 		driveHistory(rd, c.Kind, c.K)
-		src2 := bytes.NewReader(c.Stream2)
+		var src2 io.Reader = bytes.NewReader(c.Stream2)
+		if c.K%3 == 0 {
+			src2 = &chunkSrc{data: c.Stream2, chunks: []int{1 + c.K%7}, failAfter: -1}
+		}
 		switch c.Pkg {
 		case "flate":
 			rerr = rd.(resetter).Reset(src2, nil)
@@ -199,7 +207,11 @@ func checkC13(c *Case, st *Stats) *Violation {
 		}
 		reused = rd
 	}
-	fresh, ferr := newFastReader(c.Pkg, "new", bytes.NewReader(c.Stream2), c.Dict)
+	var fsrc io.Reader = bytes.NewReader(c.Stream2)
+	if c.K%3 == 0 {
+		fsrc = &chunkSrc{data: c.Stream2, chunks: []int{1 + c.K%7}, failAfter: -1}
+	}
+	fresh, ferr := newFastReader(c.Pkg, "new", fsrc, c.Dict)
 	if errKind(rerr) != errKind(ferr) {
 		return viol(c, "reset-error/"+c.Pkg, "%s: Reset returned %v, constructor on the same input returned %v (history %s)", c.Pkg, rerr, ferr, c.Kind)
 	}
@@ -237,6 +249,9 @@ func checkC15(c *Case, st *Stats) *Violation {
 	e := errSrcInjected
 	if c.Kind == "B" {
 		e = errSrcInjected2
+	}
+	if c.Kind == "W" {
+		e = errSrcWrapsEOF // an error that is not io.EOF but wraps it
 	}
 	cs := &chunkSrc{data: c.Stream, chunks: c.Chunks, failAfter: c.K, failErr: e, failWith: c.EOFWith}
 	var src io.Reader = cs
